@@ -643,3 +643,28 @@ def r9_cast(text):
     text, k = re.subn(r'\b(%s)\.powi\(([0-9]+)\)' % IDENT, r'vt_powi(\1, \2)', text)
     n += k
     return text, n
+
+
+@rule('R19')
+def r19_extend_map_chars(text):
+    """T.extend(CS.chars().map(|c| { BODY }));   ->
+         let vt_v = CS.vt_chars_vec(); for vt_i in 0..vt_v.len() { let c = &vt_v[vt_i]; let vt_e = { BODY }; T.push(vt_e); }
+    (`extend` pushes the mapped elements in iteration order; `map` applies the closure once per element, in order)"""
+    pat = re.compile(r'([ \t]*)(%s)\.extend\((.+?)\.chars\(\)\.map\(\|(%s)\| \{' % (IDENT, IDENT))
+    n = 0
+    while True:
+        m = pat.search(text)
+        if not m:
+            break
+        ind, tvec, cs, c = m.groups()
+        o = m.end() - 1
+        cl = _balanced(text, o, '{', '}')
+        tail = re.match(r'\)\);', text[cl + 1:])
+        if not tail:
+            break
+        body = text[o:cl + 1]
+        new = ('%slet vt_v = %s.vt_chars_vec();\n%sfor vt_i in 0..vt_v.len() {\n%s    let %s = &vt_v[vt_i];\n%s    let vt_e = %s;\n%s    %s.push(vt_e);\n%s}'
+               % (ind, cs, ind, ind, c, ind, body, ind, tvec, ind))
+        text = text[:m.start()] + new + text[cl + 1 + tail.end():]
+        n += 1
+    return text, n
